@@ -884,12 +884,12 @@ func Run(r *common.Run) error {
 				}
 				c.whist(fa, strings.Split(f[3], ","))
 			}
-			if len(f) == 4 && f[0] == "C10" && f[1] == "tee" {
+			if len(f) == 4 && f[0] == "C10" && (f[1] == "tee" || f[1] == "teer") {
 				k := -1
 				if f[2] != "-" {
 					fmt.Sscan(f[2], &k)
 				}
-				c.teeHist(k, strings.Split(f[3], ","))
+				c.teeHistRole(f[1] == "teer", k, strings.Split(f[3], ","))
 			}
 			if len(f) == 3 && f[0] == "C10" && f[1] == "wdl" {
 				c.wdlHist(strings.Split(f[2], ","))
@@ -930,6 +930,17 @@ func Run(r *common.Run) error {
 			c.closeBlocked()
 			for _, kind := range abandonKinds {
 				c.abandon(abandonOps[i%len(abandonOps)], kind, false)
+			}
+		}
+		for _, h := range [][]string{{"ao", "aw", "v", "dc", "ro"}, {"ao", "v", "dy", "dc", "ro"}, {"ai", "v", "x", "ri"}, {"v", "c", "dy"},
+			{"ao", "v", "db", "ai", "ro", "ri"}, {"v", "dy", "ao", "dy", "x", "aw", "ro"}, {"v", "ds", "dy", "ao", "dc", "c"}} {
+			c.srv(h)
+		}
+		for _, ws := range []bool{false, true} {
+			for _, recv := range []bool{false, true} {
+				for _, h := range [][]string{{"y", "c", "q"}, {"t1", "p"}, {"c", "t2", "q", "p"}} {
+					c.frHist(ws, recv, h)
+				}
 			}
 		}
 		for _, h := range [][]string{{"d"}, {"m", "df", "m", "dp"}, {"df", "c", "p"}, {"y", "dz", "y"}, {"m", "d"}, {"c", "dp"}} {
